@@ -15,6 +15,8 @@
 (* Structure [k, c, keys] with k = "*" at the leaves.                       *)
 (* Leaf type L (tuples): <<"int">> <<"str">> <<"tup2">> (tuple[int,int])    *)
 (*   <<"any">> <<"arr", toks, cat>> <<"union", L1, L2>> <<"tupA", L>>        *)
+(*   <<"union|", L1, L2>> is the same union written `L1 | L2` (PEP 604): the  *)
+(*   spelling has no meaning                                                   *)
 (*   (tuple[L, int]) <<"pt", L>> (PyTree[L]) <<"ptS", L, S>> (PyTree[L,S])   *)
 (* Structure spec S: NoStruct or [pieces |-> <<names>>, dots |-> "none" |    *)
 (*   "post" ("T ...") | "pre" ("... T"), str |-> the string as written].     *)
@@ -67,7 +69,7 @@ TypeMatch(L, x) ==
     [] L[1] = "tup2" -> x.k \in {"tuple", "nt"} /\ Len(x.c) = 2 /\ \A i \in 1..2 : x.c[i].k = "int"
     [] L[1] = "any" -> TRUE
     [] L[1] = "arr" -> IsArrayLike(L, x)
-    [] L[1] = "union" -> TypeMatch(L[2], x) \/ TypeMatch(L[3], x)
+    [] L[1] \in {"union", "union|"} -> TypeMatch(L[2], x) \/ TypeMatch(L[3], x)
     [] L[1] = "tupA" -> x.k \in {"tuple", "nt"} /\ Len(x.c) = 2 /\ TypeMatch(L[2], x.c[1]) /\ x.c[2].k = "int"
     [] L[1] \in {"pt", "ptS"} ->
          x.k = "none" \/ LET d == Discover(L[2], x) IN \A i \in DOMAIN d.leaves : TypeMatch(L[2], d.leaves[i])
@@ -124,7 +126,7 @@ FullMatch(L, x, m, args, lab, fl) ==
          ELSE LET c == ArrayCheck(ParseSpec(L[2]).dims, [inst |-> TRUE, dtin |-> DtIn(L[3], x.dt), shape |-> x.shape],
                                   ArrPart(m), args, lab, fl)
               IN [r |-> c.r, memo |-> WithArr(m, c.memo)]
-    [] L[1] = "union" ->
+    [] L[1] \in {"union", "union|"} ->
          LET a == FullMatch(L[2], x, m, args, lab, fl) IN
          IF a.r \in {"T", "E"} THEN a ELSE FullMatch(L[3], x, a.memo, args, lab, fl)
     [] L[1] = "tupA" ->
